@@ -142,7 +142,8 @@ def generate(prop, rng, tier):
 
 LAYOUTS = ['C'] * 5 + ['F', 'strided', 'strided']
 XPATTERNS = ['rand'] * 6 + ['zero_points', 'zero_points', 'all_zero', 'ties',
-                            'ints', 'one_comp_zero', 'halves', 'unit_norm']
+                            'ints', 'one_comp_zero', 'halves', 'unit_norm',
+                            'real_embedded']
 
 
 def _pattern(x, pat, g):
@@ -164,6 +165,15 @@ def _pattern(x, pat, g):
     elif pat == 'ints':
         for a in arrs:
             a[...] = np.round(2 * a)
+    elif pat == 'real_embedded':
+        # real data in a complex space (imaginary part exactly zero); purely
+        # imaginary for every second element
+        for q, a in enumerate(arrs):
+            if a.dtype.kind == 'c':
+                if q % 2 == 0:
+                    a.imag[...] = 0
+                else:
+                    a.real[...] = 0
     elif pat == 'halves':
         # multiples of 0.5: entries exactly at the thresholds lam * sigma the
         # recipes use (0.5, 1, 2, 2.5)
